@@ -511,7 +511,7 @@ func vcfsRunSchedule(scn vcfsConcScenario) []vcfsEvent {
 			if done[si] {
 				continue
 			}
-			gp := gate.take(st.Data, 40*time.Millisecond)
+			gp := gate.take(st.Data, 250*time.Millisecond)
 			for tries := 0; gp == nil && tries < 4; tries++ {
 				// The commitBlock goroutines of one flush start in any order: if a write that
 				// the schedule releases LATER is waiting in front of the expected one (it holds
@@ -526,7 +526,7 @@ func vcfsRunSchedule(scn vcfsConcScenario) []vcfsEvent {
 						}
 					}
 				}
-				gp = gate.take(st.Data, 150*time.Millisecond)
+				gp = gate.take(st.Data, 400*time.Millisecond)
 			}
 			if gp == nil {
 				unapplied++
